@@ -1945,7 +1945,7 @@ func (t *FnTrans) modifiesComps(callee *ssa.Function, con *Contract) ([]string, 
 				}
 			}
 		case strings.HasPrefix(item, "mapof(") && strings.HasSuffix(item, ")"):
-			pt := paramType(strings.TrimSpace(item[len("mapof(") : len(item)-1]))
+			pt := pathType(strings.TrimSpace(item[len("mapof(") : len(item)-1]))
 			if pt == nil {
 				return nil, false
 			}
